@@ -306,6 +306,24 @@ PROPS = {
             "tolerance 1e-7, permuted matrices with 1e-5 (absolute + relative)",
         ],
     },
+    "C16": {
+        "harness": [{"cmd": "c16", "n": {"quick": 600, "thorough": 20000}, "extra": ["-per", "75"]}],
+        "rule": "a random ORF (ATG, 4-13 sense codons, stop) embedded, exactly or mutated (5% / 12% of the bases, 25% of "
+                "the mutated copies with a one-base or one-codon deletion), in random flanks of 0-12 bases, 1-5 sequences, "
+                "a third reverse-complemented when both strands are searched; 75%: Phase with no / one / two reference "
+                "ORFs x translate x reverse x cut-end x 3 genetic codes, run with 1 worker and with 2-8 workers under a "
+                "watchdog (stream must close), every result judged (one per input, substring at the reported position of "
+                "the input or its reverse complement, frame, translation with the model's translation, verbatim ORF "
+                "trimmed at its start, same results for both worker counts, inputs unchanged); 25%: SeqBag.LongestORF on "
+                "sequences seeded with extra ATGs (overlapping ORFs) or without any ORF, compared exactly with the code "
+                "model and judged (is an ORF of an input strand, none longer); non-trivial = more than one sequence; "
+                "distinct = distinct (call, options, sequences)",
+        "nontrivial": lambda m: len(m.get("seqs", [])) > 1,
+        "assumptions": [
+            "the anchored Smith-Waterman search of the phaser is not re-executed in the model (its score/traceback "
+            "model is covered by C09); goroutine scheduling is exercised with two worker counts, not enumerated",
+        ],
+    },
     "C08": {
         "harness": [{"cmd": "c08", "n": {"quick": 600, "thorough": 20000}, "extra": ["-per", "100"]}],
         "rule": "the alignments and option sets of C07, each followed by one relation between two real calls of "
